@@ -46,7 +46,10 @@ OUTSIDE = ('time spent inside a real TLS handshake or the DNS library; '
            'connect() itself (socket creator returns at once or after a '
            'delay below the connect timeout); a peer that stops READING '
            '(sendall() on the fake sockets never blocks; the library sends '
-           'outside its timers)')
+           'outside its timers); a peer that floods an unfinished line so '
+           'fast that recv() never has to wait (the reading greenlet then '
+           'never yields to the hub and no timer fires); reading a PROXY '
+           'protocol header in front of the session')
 STUBS = ['PipeSocket / ScriptedPeer', 'virtual-time loop with the real '
          'gevent.Timeout', 'Popen stub', 'fake HTTP connection',
          'gevent.socket.create_connection -> cooperative PipeSocket; '
